@@ -79,3 +79,9 @@ impl<T> HttpResponse<T> {
 }
 /// http::Request<hyper::Body> as put on the wire: opaque, with the views contracts need
 #[verifier::external_body] pub struct HttpRequestMsg { _p: u8 }
+/// rand::random::<u64>(): an arbitrary value (uniformity is not modelled).  `vx_is_draw` is an
+/// uninterpreted token that only this function establishes: a contract demanding it can be met
+/// only by code that actually consumes a random draw.
+pub uninterp spec fn vx_is_draw(d: u64) -> bool;
+#[verifier::external_body]
+pub fn vx_random_u64() -> (d: u64) ensures vx_is_draw(d) { unimplemented!() }
